@@ -51,6 +51,9 @@ type caseSpec struct {
 	// chunk-after-last-schema (one blob of the file arrives after the schema), chunk-missing (one
 	// blob of the file is never uploaded).
 	Order string `json:"order"`
+	// LateBlob: which blob the late orders hold back: "" = a seeded blob of the file (data chunk
+	// or "bytes" schema blob), "last-chunk" = the file's last data chunk.
+	LateBlob string `json:"late_blob,omitempty"`
 	// Interleave: "" = the files are uploaded one after the other; "chunks-first" = everything
 	// but the last schema upload of every file first, then those schema uploads in seeded order.
 	Interleave string `json:"interleave,omitempty"`
@@ -260,6 +263,15 @@ func buildWorld(cs caseSpec) (*world, error) {
 				return nil, fmt.Errorf("file %q has no blob of its own", fi.Spec.Name)
 			}
 			late = fresh[rng.Intn(len(fresh))]
+			if lc := w.byRef[fi.Chunks[len(fi.Chunks)-1].Ref]; cs.LateBlob == "last-chunk" {
+				// the last data chunk: a pack that went on regardless would have stored the
+				// zips before it
+				for _, i := range fresh {
+					if i == lc {
+						late = lc
+					}
+				}
+			}
 			w.Late = append(w.Late, late)
 			var rest []int
 			for _, i := range idx {
